@@ -684,3 +684,166 @@ pub fn c07_real_edge_test(_w: &mut (), c: &RealEdge) -> Verdict {
     let edge = a_empty.load(Ordering::SeqCst) && delivered;
     Verdict::Pass(if edge { Good::nontrivial() } else { Good::trivial() }.class(if c.tcp { "tcp" } else { "unix" }).class_if(edge, "timed-receiver-gave-up-and-the-blocking-one-got-the-request").class_if(!a_empty.load(Ordering::SeqCst), "timed-receiver-got-the-request"))
 }
+
+// ------------------------------------------------------------------------------------------
+// C08 with a handler that is slow *inside* respond(): connection A's response body comes from a
+// reader that only continues once connection B has its answer.  B must not wait for A's handler.
+
+#[derive(Clone, Debug, Serialize, Deserialize)]
+pub struct SlowBody {
+    pub tcp: bool,
+    /// request line version of A: 0 = HTTP/1.0 (identity, body buffered for its length), 1 =
+    /// HTTP/1.1 with `TE: identity`, 2 = plain HTTP/1.1 (chunked streaming)
+    pub a_kind: u8,
+    /// A's response declares its length
+    pub declared: bool,
+    /// the reader stalls before its first byte (else after the first few)
+    pub stall_at_start: bool,
+}
+
+pub fn c08_slow_strategy() -> BoxedStrategy<SlowBody> {
+    (any::<bool>(), 0u8..3, proptest::bool::weighted(0.3), any::<bool>()).prop_map(|(tcp, a_kind, declared, stall_at_start)| SlowBody { tcp, a_kind, declared, stall_at_start }).boxed()
+}
+
+struct GateReader {
+    gate: Arc<std::sync::atomic::AtomicBool>,
+    entered: Arc<std::sync::atomic::AtomicBool>,
+    given: usize,
+    stall_at: usize,
+    total: usize,
+    timed_out: Arc<std::sync::atomic::AtomicBool>,
+}
+
+impl Read for GateReader {
+    fn read(&mut self, buf: &mut [u8]) -> std::io::Result<usize> {
+        use std::sync::atomic::Ordering;
+        if self.given >= self.total || buf.is_empty() {
+            return Ok(0);
+        }
+        if self.given == self.stall_at {
+            self.entered.store(true, Ordering::SeqCst);
+            let t0 = Instant::now();
+            while !self.gate.load(Ordering::SeqCst) {
+                if t0.elapsed() > Duration::from_secs(4) {
+                    self.timed_out.store(true, Ordering::SeqCst);
+                    break;
+                }
+                std::thread::sleep(Duration::from_millis(2));
+            }
+        }
+        let n = if self.given < self.stall_at { (self.stall_at - self.given).min(buf.len()) } else { (self.total - self.given).min(buf.len()) };
+        for b in buf[..n].iter_mut() {
+            *b = b'a';
+        }
+        self.given += n;
+        Ok(n)
+    }
+}
+
+fn c08_slow_experiment(c: &SlowBody) -> Option<(bool, u128)> {
+    use std::sync::atomic::{AtomicBool, Ordering};
+    let dir = format!("{}/target/tmp", vcore::report::verif_root());
+    let _ = std::fs::create_dir_all(&dir);
+    let path = format!("{}/c08slow-{}-{:?}.sock", dir, std::process::id(), std::thread::current().id()).replace(['(', ')'], "");
+    let _ = std::fs::remove_file(&path);
+    let server = if c.tcp { tiny_http::Server::http("127.0.0.1:0") } else { tiny_http::Server::http_unix(std::path::Path::new(&path)) }.ok()?;
+    let server = Arc::new(server);
+    let addr = server.server_addr().to_ip();
+    let connect = |req: &[u8]| -> Option<Box<dyn ReadWriteTimeout>> {
+        if c.tcp {
+            let mut s = std::net::TcpStream::connect(addr?).ok()?;
+            s.set_read_timeout(Some(Duration::from_secs(8))).ok()?;
+            s.write_all(req).ok()?;
+            Some(Box::new(s))
+        } else {
+            let mut s = std::os::unix::net::UnixStream::connect(&path).ok()?;
+            s.set_read_timeout(Some(Duration::from_secs(8))).ok()?;
+            s.write_all(req).ok()?;
+            Some(Box::new(s))
+        }
+    };
+    let a_req: &[u8] = match c.a_kind {
+        0 => b"GET /slow HTTP/1.0\r\nHost: h\r\n\r\n",
+        1 => b"GET /slow HTTP/1.1\r\nHost: h\r\nTE: identity\r\n\r\n",
+        _ => b"GET /slow HTTP/1.1\r\nHost: h\r\n\r\n",
+    };
+    let gate = Arc::new(AtomicBool::new(false));
+    let entered = Arc::new(AtomicBool::new(false));
+    let timed_out = Arc::new(AtomicBool::new(false));
+    let mut handlers = vec![];
+    for _ in 0..2 {
+        let (s, gate, entered, timed_out, declared, stall0) = (server.clone(), gate.clone(), entered.clone(), timed_out.clone(), c.declared, c.stall_at_start);
+        handlers.push(std::thread::spawn(move || {
+            while let Ok(Some(rq)) = s.recv_timeout(Duration::from_secs(6)) {
+                if rq.url() == "/slow" {
+                    let total = 5000;
+                    let r = GateReader { gate: gate.clone(), entered: entered.clone(), given: 0, stall_at: if stall0 { 0 } else { 10 }, total, timed_out: timed_out.clone() };
+                    let _ = rq.respond(tiny_http::Response::new(tiny_http::StatusCode(200), vec![], r, if declared { Some(total) } else { None }, None));
+                    break;
+                } else {
+                    // B is answered only once A's response is under way
+                    let t0 = Instant::now();
+                    while !entered.load(Ordering::SeqCst) && t0.elapsed() < Duration::from_secs(3) {
+                        std::thread::sleep(Duration::from_millis(1));
+                    }
+                    let _ = rq.respond(tiny_http::Response::from_string("quick"));
+                    break;
+                }
+            }
+        }));
+    }
+    let mut a = connect(a_req)?;
+    let mut b = connect(b"GET /quick HTTP/1.1\r\nHost: h\r\nConnection: close\r\n\r\n")?;
+    let t0 = Instant::now();
+    let mut got = vec![];
+    let mut buf = [0u8; 512];
+    let mut b_ok = false;
+    loop {
+        match b.read(&mut buf) {
+            Ok(0) => break,
+            Ok(n) => {
+                got.extend_from_slice(&buf[..n]);
+                if got.windows(5).any(|w| w == b"quick") {
+                    b_ok = true;
+                    break;
+                }
+            }
+            Err(_) => break,
+        }
+    }
+    let b_ms = t0.elapsed().as_millis();
+    let a_was_under_way = entered.load(Ordering::SeqCst);
+    let waited_for_a = timed_out.load(Ordering::SeqCst);
+    gate.store(true, Ordering::SeqCst);
+    // let A's response go out (the head at least), then end everything
+    let mut sink = [0u8; 4096];
+    let _ = a.read(&mut sink);
+    drop(a);
+    drop(b);
+    for h in handlers {
+        let _ = h.join();
+    }
+    drop(server);
+    let _ = std::fs::remove_file(&path);
+    if !a_was_under_way {
+        return None;
+    }
+    // B answered while A's reader was still stalled = independent; B answered only after the gate timed out = B waited for A
+    Some((b_ok && !waited_for_a, b_ms))
+}
+
+trait ReadWriteTimeout: Read + Write + Send {}
+impl ReadWriteTimeout for std::net::TcpStream {}
+impl ReadWriteTimeout for std::os::unix::net::UnixStream {}
+
+pub fn c08_slow_test(_w: &mut (), c: &SlowBody) -> Verdict {
+    let classes = |g: Good| g.class(if c.tcp { "tcp" } else { "unix" }).class(["a:http10", "a:te-identity", "a:http11"][c.a_kind as usize % 3]).class(if c.declared { "declared-length" } else { "unknown-length" });
+    match c08_slow_experiment(c) {
+        None => Verdict::Pass(classes(Good::trivial()).class("scenario-not-set-up")),
+        Some((true, _)) => Verdict::Pass(classes(Good::nontrivial())),
+        Some((false, ms)) => match c08_slow_experiment(c) {
+            Some((false, ms2)) => fail("C08/real/answer-waits-for-another-connections-response-body", format!("twice in a row: connection B's answer ('quick') arrived only after {} / {} ms, when the stalled body reader of connection A's response gave up after 4 s; B's handler had called respond() while A's was inside respond()", ms, ms2)),
+            _ => Verdict::Pass(classes(Good::trivial()).class("slow-once-not-repeated")),
+        },
+    }
+}
